@@ -156,6 +156,25 @@ def make_cases(ctx, rng):
                         "  other() {\n    return this.a;\n  }\n}\n") % (tok, tok, tok, tok)
             cases.append({"id": "tok:%s:%d" % (lang, ti), "name": "bad/tok%d%s" % (ti, ext[lang]), "data": body.encode("utf-8", "surrogatepass"), "mclass": "token", "lang": lang,
                           "token": tok[:40]})
+    # suppression / tool comments that are damaged the way a truncated line or a forgotten bracket damages them: long runs of rule-id characters
+    # that never reach their terminator, stray punctuation inside the list, thousands of items (what a backtracking pattern chokes on)
+    ids = "magic-numbers.numeric-literal, nesting.excessive-depth, srp.violation, dry.duplicate-code"
+    hostile = ["thailint: ignore[%s" % ids, "thailint: ignore-next-line[%s" % ids, "thailint: ignore-file[%s" % ids, "thailint: ignore-start %s [" % ids,
+               "thailint: ignore[%s;]" % ids, "thailint: ignore[" + "a" * 60, "thailint: ignore[" + "a-b." * 40 + "!", "thailint: ignore[" + ", ".join("r%d" % k for k in range(3000)) + "]",
+               "thailint: ignore" + " " * 3000 + "[x", "noqa: " + ",".join("E%03d" % k for k in range(400)) + ";", "noqa:" + "E501 " * 500, "type: ignore[" + "attr-defined," * 200,
+               "pylint: disable=" + "invalid-name," * 300 + "(", "pyright: ignore[" + "reportGeneralTypeIssues " * 100, "nosec " + "B101," * 300, "eslint-disable-next-line " + "no-console, " * 300 + "@",
+               "@ts-ignore " + "x" * 5000, "@ts-expect-error" + ":" * 2000, "thailint: ignore[" + "[" * 500, "thailint: ignore[" + "]" * 500 + "[" * 500]
+    for lang in ("py", "ts", "js", "rs"):
+        cmk = "#" if lang == "py" else "//"
+        for hi, text in enumerate(hostile):
+            if lang == "py":
+                body = "def held_%d(a):\n    value = a * 4242  %s %s\n    %s %s\n    return value\n" % (hi, cmk, text, cmk, text)
+            elif lang == "rs":
+                body = "fn held_%d(a: i64) -> i64 {\n    let value = a * 4242; %s %s\n    %s %s\n    value\n}\n" % (hi, cmk, text, cmk, text)
+            else:
+                body = "function held%d(a) {\n  const value = a * 4242; %s %s\n  %s %s\n  return value;\n}\n" % (hi, cmk, text, cmk, text)
+            cases.append({"id": "cmt:%s:%d" % (lang, hi), "name": "bad/cmt%d%s" % (hi, ext[lang]), "data": body.encode("utf-8"), "mclass": "damaged-directive-comment", "lang": lang,
+                          "token": text[:40]})
     # degenerate contents under every kind of name (known extension, unknown extension, none): the classes the property lists, at their smallest
     for ci, data in enumerate([b"", b"\xef\xbb\xbf", b"\xef\xbb\xbf\n", b"\n", b" ", b"\t\r\n", b"\x00", b"#!", b"#!\n", b"#!/usr/bin/env python3", b"\xff\xfe", b"\r"]):
         for name in ("bad/tiny%d" % ci, "bad/tiny%d.txt" % ci, "bad/tiny%d.py" % ci, "bad/tiny%d.ts" % ci, "bad/tiny%d.rs" % ci):
